@@ -76,8 +76,10 @@ def gen_script(rnd, long=False):
                 ops.append(["send", rnd.choice(S.KINDS), "idem", rnd.choice(["t1", "t2", "t3"])])
             ops.append(["turns", rnd.randint(0, 3)])
             ops.append(["unstall"])
-        else:
+        elif c < 0.96:
             ops.append(["q"])
+        else:
+            ops.append(["open"])   # open_socket() on a socket that is open already: a no-op
     return ops
 
 
